@@ -1,3 +1,115 @@
 import Driver.Common
-/-! stub: replaced by the owner of this driver -/
-def main : IO Unit := Driver.run () (fun s _ => (s, "bad-op"))
+import ScionVerif.Model.TunServer
+/-! line-protocol driver for the identity registry + SNAP tunnel server model (C09)
+
+requests (one per line):
+  new                                   reset to the empty system
+  at <d> <request…>                     restore the state reached after the first d requests of the current
+                                        path (DFS with shared prefixes), apply the request, remember the result
+  reg <key> <id> <life> | adv <d> | purge | tick
+  in <addr> init <signer|-> <claimed> <ts> <hs>
+  in <addr> data <signer|-> <hs> <src-addr> <ridx> <ctr> <payload-hex>
+  in <addr> other | in <addr> junk
+  out <addr> <payload-hex>
+response: `<outcome> | t=<now> tun=<addr:peer,…> a=<key:id,…> s=<id:expiry,…> auth=<verdicts for ids 0..3>`
+-/
+open ScionVerif.SnapTun Driver
+
+abbrev S := Sys GoWg.Tunn
+
+structure St where
+  cur : S := {}
+  stack : Array S := #[{}]
+
+def nat? (s : String) : Option Nat := s.toNat?
+
+def optId? (s : String) : Option (Option Nat) :=
+  if s == "-" then some none else (s.toNat?).map some
+
+def payload? (s : String) : Option Payload := (parseHex s).map (·.map (·.toNat))
+
+def hexP (p : Payload) : String := toHex (p.map UInt8.ofNat)
+
+def errName : WgErr → String
+  | .unexpectedPacket => "UnexpectedPacket"
+  | .invalidPacket => "InvalidPacket"
+  | .tunn c =>
+    if c == GoWg.eWrongKey then "WrongKey"
+    else if c == GoWg.eInvalidAeadTag then "InvalidAeadTag"
+    else if c == GoWg.eWrongTimestamp then "WrongTai64nTimestamp"
+    else if c == GoWg.eWrongIndex then "WrongIndex"
+    else if c == GoWg.eNoCurrentSession then "NoCurrentSession"
+    else if c == GoWg.eDuplicateCounter then "DuplicateCounter"
+    else if c == GoWg.eWrongPacketType then "WrongPacketType"
+    else s!"Tunn{c}"
+
+def netStr : GoWg.Net → String
+  | .resp _ idx => s!"resp:{idx}"
+  | .init => "init"
+  | .data _ p => s!"data:{hexP p}"
+
+def joinOr (xs : List String) : String := if xs.isEmpty then "-" else ",".intercalate xs
+
+def resStr : InRes GoWg.Net Unit → String
+  | .forwarded p _ => s!"fwd:{hexP p}"
+  | .result .done => "done"
+  | .result (.err e) => s!"err:{errName e}"
+  | .result (.writeToNetwork _) => "wtn"
+  | .result (.writeToTunnel p) => s!"wtt:{hexP p}"
+
+def outStr : Out GoWg.Net → String
+  | .registered true => "reg new"
+  | .registered false => "reg old"
+  | .unit => "ok"
+  | .incoming net res _ => s!"in res={resStr res} net={joinOr (net.map netStr)}"
+  | .outgoing none _ => "out none"
+  | .outgoing (some (n, _)) _ => s!"out some:{match n with | some x => netStr x | none => "none"}"
+  | .ticked net => s!"tick {joinOr (net.map (fun p => s!"{p.1}:{netStr p.2}"))}"
+
+def sortPairs (l : List (Nat × Nat)) : List (Nat × Nat) := l.mergeSort (fun a b => a.1 ≤ b.1)
+
+def stateStr (s : S) : String :=
+  let tun := sortPairs (s.srv.tunnels.map (fun p => (p.1, p.2.peerStatic)))
+  let pr (l : List (Nat × Nat)) := joinOr (l.map (fun p => s!"{p.1}:{p.2}"))
+  let auth := String.join ((List.range 4).map (fun i => if s.reg.hasAuthorization s.now i then "1" else "0"))
+  s!"t={s.now} tun={pr tun} a={pr (sortPairs s.reg.assoc)} s={pr (sortPairs s.reg.sess)} auth={auth}"
+
+def parseOp : List String → Option (Op GoWg.Pkt)
+  | ["reg", k, i, l] => do some (.register (← nat? k) (← nat? i) (← nat? l))
+  | ["adv", d] => do some (.advance (← nat? d))
+  | ["purge"] => some .purge
+  | ["tick"] => some .tick
+  | ["in", a, "init", sg, c, ts, hs] => do
+      some (.incoming (← nat? a) (.init (← optId? sg) (← nat? c) (← nat? ts) (← nat? hs)))
+  | ["in", a, "data", sg, hs, src, ridx, ctr, pl] => do
+      some (.incoming (← nat? a)
+        (.data (← optId? sg) (← nat? hs) (← nat? src) (← nat? ridx) (← nat? ctr) (← payload? pl)))
+  | ["in", a, "other"] => do some (.incoming (← nat? a) .other)
+  | ["in", a, "junk"] => do some (.incoming (← nat? a) .junk)
+  | ["out", a, pl] => do some (.outgoing (← nat? a) (← payload? pl))
+  | _ => none
+
+def apply (s : S) (ws : List String) : Option (S × String) :=
+  match parseOp ws with
+  | some op =>
+    let (s', o) := step GoWg.wg s op
+    some (s', s!"{outStr o} | {stateStr s'}")
+  | none => none
+
+def stepD (st : St) : List String → St × String
+  | ["new"] => ({}, "ok")
+  | "at" :: d :: rest =>
+    match d.toNat? with
+    | some d =>
+      if h : d < st.stack.size then
+        match apply st.stack[d] rest with
+        | some (s', r) => ({ cur := s', stack := (st.stack.extract 0 (d + 1)).push s' }, r)
+        | none => (st, "bad-op")
+      else (st, "bad-op")
+    | none => (st, "bad-op")
+  | ws =>
+    match apply st.cur ws with
+    | some (s', r) => ({ cur := s', stack := st.stack.push s' }, r)
+    | none => (st, "bad-op")
+
+def main : IO Unit := Driver.run ({} : St) stepD
